@@ -41,7 +41,9 @@ type Rule struct {
 	Floor int    // minimum number of obligations confirmed by hand on the pinned tree
 	// Thorough marks rules that only run in the thorough tier.
 	Thorough bool
-	Run      func(c *Ctx)
+	// Late rules run after all other rules of the property and can ask which functions those anchored.
+	Late bool
+	Run  func(c *Ctx)
 }
 
 // Property groups the rules of one property.
@@ -70,6 +72,7 @@ type Report struct {
 	Obls     []Obligation
 	RuleN    map[string]int
 	funcs    map[string]bool
+	anchored map[string]bool
 	sites    int
 }
 
@@ -113,6 +116,42 @@ func (c *Ctx) MissingAnchor(what string) {
 	c.add(AnchorMissing, what, "", "anchor not found: the rule cannot be evaluated")
 }
 
+func pkgPathOf(f *ssa.Function) string {
+	for f != nil && f.Parent() != nil {
+		f = f.Parent()
+	}
+	if f == nil {
+		return ""
+	}
+	if f.Pkg != nil {
+		return f.Pkg.Pkg.Path()
+	}
+	if o := f.Origin(); o != nil && o.Pkg != nil {
+		return o.Pkg.Pkg.Path()
+	}
+	return ""
+}
+
+// RuleID is the id of the running rule (its prefix is the property being checked).
+func (c *Ctx) RuleID() string { return c.rule.ID }
+
+// Anchored reports whether the rules that are not Late touched the named function (or one nested in it):
+// the functions the hand-written rules of this property are about.
+func (c *Ctx) Anchored(fnName string) bool {
+	if c.rep.anchored == nil {
+		return false
+	}
+	if c.rep.anchored[fnName] {
+		return true
+	}
+	for k := range c.rep.anchored {
+		if strings.HasPrefix(k, fnName+"$") {
+			return true
+		}
+	}
+	return false
+}
+
 // Touch counts fn as analysed.
 func (c *Ctx) Touch(fn *ssa.Function) {
 	if fn != nil {
@@ -126,7 +165,63 @@ func (c *Ctx) Sites(n int) { c.rep.sites += n }
 // RunProperty evaluates all rules of p.
 func RunProperty(env *Env, p *Property, tier string) *Report {
 	rep := &Report{Property: p, Tier: tier, RuleN: map[string]int{}, funcs: map[string]bool{}}
+	var ordered []*Rule
 	for _, r := range p.Rules {
+		if !r.Late {
+			ordered = append(ordered, r)
+		}
+	}
+	nEarly := len(ordered)
+	for _, r := range p.Rules {
+		if r.Late {
+			ordered = append(ordered, r)
+		}
+	}
+	for i, r := range ordered {
+		if i == nEarly && nEarly < len(ordered) {
+			// the functions the hand-written rules are about, and everything they call inside the repository
+			rep.anchored = map[string]bool{}
+			byName := map[string]*ssa.Function{}
+			for _, f := range env.SrcFuncs() {
+				byName[FuncName(f)] = f
+			}
+			cg := env.CallGraph()
+			var stack []*ssa.Function
+			push := func(f *ssa.Function) {
+				if f == nil {
+					return
+				}
+				n := FuncName(f)
+				if rep.anchored[n] {
+					return
+				}
+				if f.Pkg == nil && f.Parent() == nil {
+					if o := f.Origin(); o == nil || o.Pkg == nil {
+						return
+					}
+				}
+				if !strings.HasPrefix(pkgPathOf(f), Module) {
+					return
+				}
+				rep.anchored[n] = true
+				stack = append(stack, f)
+			}
+			for k := range rep.funcs {
+				push(byName[k])
+			}
+			for len(stack) > 0 {
+				f := stack[len(stack)-1]
+				stack = stack[:len(stack)-1]
+				for _, a := range f.AnonFuncs {
+					push(a)
+				}
+				if nd := cg.Nodes[f]; nd != nil {
+					for _, e := range nd.Out {
+						push(e.Callee.Func)
+					}
+				}
+			}
+		}
 		if r.Thorough && tier != "thorough" {
 			continue
 		}
